@@ -83,6 +83,34 @@ def classify_loop(ts, loop, names, marker):
     return None
 
 
+def _pp_depth_before(ts, t, target):
+    """preprocessor conditional nesting of the emitted text at `target` (document order; Jinja structure ignored)"""
+    import re
+    N = ts.nodes
+    stack = []
+    done = [False]
+
+    def rec(node):
+        if done[0]:
+            return
+        if node is target:
+            done[0] = True
+            return
+        if isinstance(node, N.TemplateData):
+            for m in re.finditer(r"^[ \t]*#[ \t]*(ifndef|ifdef|if|endif)\b([^\n]*)", node.data, flags=re.M):
+                if m.group(1) == "endif":
+                    if stack:
+                        stack.pop()
+                else:
+                    stack.append("#" + m.group(1) + m.group(2).rstrip()[:40])
+            return
+        for c in node.iter_child_nodes():
+            rec(c)
+
+    rec(t.ast)
+    return len(stack), list(stack)
+
+
 def rule_both_sides(ctx, ts):
     R = "R-C17-BOTH-SIDES"
     ctx.rule(
@@ -140,6 +168,14 @@ def rule_both_sides(ctx, ts):
                "" if ok else (f"guards are {f}: " + ("with --omit-serialization-support the header asserts constants that only the (not included) support header defines"
                               if ("nunavut.support.omit", False) not in f else "assertions can be switched off while the support header is still included")),
                al.lineno)
+        # emitted-text scope: the assertions may sit inside the header's own include guard only - a further preprocessor
+        # conditional (e.g. "check once per translation unit") lets a second, differently generated header go unchecked
+        depth, opens = _pp_depth_before(ts, base, al)
+        ok = depth == 1
+        ctx.ob(S, base.rel, f"{lang}: assertions are outside any preprocessor conditional other than the include guard", ok,
+               f"open conditionals: {opens}" if ok else
+               f"the assertion loop is emitted inside {opens}: it is compiled at most once per translation unit / configuration, so a "
+               "header generated with other options that is included later is never compared", al.lineno)
         # definition side must be unconditional
         fd = j2front.facts(ds)
         ctx.ob(S, sup.rel, f"{lang}: option constants defined unconditionally in the support header", not fd, "" if not fd else f"under {fd}", dl.lineno)
